@@ -20,11 +20,12 @@ type FuncReport struct {
 	Returns int
 	Vacuity []*Obligation // must NOT be unsat
 	Bound   bool
+	Callees map[string]bool // contracts assumed at call sites
 }
 
 func (w *World) newExec(fn *ssa.Function, spec *FuncSpec, beh *Behavior) *Exec {
 	x := &Exec{W: w, fn: fn, spec: spec, beh: beh, ghost: map[string]Value{}, assumed: map[string]bool{},
-		ordinal: map[ssa.Instruction]int{}, globals: map[string]*Obj{}, gvals: map[*Obj]Value{}, errIDs: map[string]*Term{},
+		callees: map[string]bool{}, ordinal: map[ssa.Instruction]int{}, globals: map[string]*Obj{}, gvals: map[*Obj]Value{}, errIDs: map[string]*Term{},
 		maxPath: 4000, strs: map[string]*Term{}, bufSrc: map[*Obj]*Obj{}, aliasOf: map[*Obj]*Obj{}, lazy: map[*Obj]Value{}, conns: map[*Term]*Obj{}, boxed: map[*Term]Value{}, sidx: map[*Term]bool{}, unfolded: map[*Term]bool{}, recfact: map[*Term]bool{}}
 	x.bv = spec.Mode == "bv"
 	x.arr = spec.Options["repr"] == "arr"
@@ -104,7 +105,7 @@ func propsOf(c *Clause, b *Behavior, s *FuncSpec) []string {
 }
 
 func (w *World) VerifyFunc(spec *FuncSpec) *FuncReport {
-	rep := &FuncReport{Key: spec.Key, Spec: spec, Assumed: map[string]bool{}}
+	rep := &FuncReport{Key: spec.Key, Spec: spec, Assumed: map[string]bool{}, Callees: map[string]bool{}}
 	fn := w.LookupFunc(spec)
 	if fn == nil {
 		rep.Errors = append(rep.Errors, "contract does not bind: no function "+spec.Key+" in the current tree")
@@ -135,6 +136,9 @@ func (w *World) verifyBehavior(rep *FuncReport, fn *ssa.Function, spec *FuncSpec
 	defer func() {
 		for k := range x.assumed {
 			rep.Assumed[k] = true
+		}
+		for k := range x.callees {
+			rep.Callees[k] = true
 		}
 		rep.Obls = append(rep.Obls, x.obls...)
 		rep.Errors = append(rep.Errors, x.errs...)
